@@ -474,6 +474,11 @@ def handle (line : String) : String :=
       some (match prepare (← parseParams p) (← parseNats pp ".") (← parseNats ww ".") with
         | .ok (ps, kp) => s!"ok {showParams ps} {showKwopos kp}"
         | .error e => "err " ++ showErr e)
+    | "preparesig" :: pp :: ww :: f :: self :: rest => do
+      -- the signature a modifier's wrapper object (callable `self`) advertises for function `f`, provenance included
+      let (s, rest) ← parseSig rest
+      if rest ≠ [] then none else
+      some (showRes (prepareSig s (← f.toNat?) (← self.toNat?) (← parseNats pp ".") (← parseNats ww ".")))
     | "deccall" :: pp :: ww :: a :: k :: p :: [] => do
       let F ← parseParams p
       let P ← parseNats pp "."
